@@ -327,3 +327,49 @@ func (c *KeyCounter) Map() map[string]int64 {
 	}
 	return out
 }
+
+// LongWalk drives one instance along a fixed pseudo-random walk through its
+// own alphabet (the operations Enabled reports, chosen by a linear
+// congruential generator with the given seed; weight biases the choice, nil =
+// uniform) and applies the harness's full oracle after every step. It is one
+// execution, not a search: its purpose is to carry the same oracle to sizes
+// the closure search cannot reach. The walk is a function of (root, steps,
+// seed, weight) and of the code under test only through Enabled, so a replay
+// regenerates it.
+func LongWalk[O any](inst Inst[O], steps int, seed uint64, weight func(O) int) (*Failure, []O) {
+	x := seed*2654435761 + 1
+	var hist []O
+	for i := 0; i < steps; i++ {
+		ops := inst.Enabled()
+		if len(ops) == 0 {
+			return nil, hist
+		}
+		total := 0
+		ws := make([]int, len(ops))
+		for k, o := range ops {
+			w := 1
+			if weight != nil {
+				w = weight(o)
+			}
+			ws[k] = w
+			total += w
+		}
+		if total == 0 {
+			return nil, hist
+		}
+		x = x*6364136223846793005 + 1442695040888963407
+		r := int((x >> 33) % uint64(total))
+		k := 0
+		for r >= ws[k] {
+			r -= ws[k]
+			k++
+		}
+		o := ops[k]
+		hist = append(hist, o)
+		if f := Guard(func() *Failure { return inst.Apply(o, true) }); f != nil {
+			f.Step = i
+			return f, hist
+		}
+	}
+	return nil, hist
+}
